@@ -41,7 +41,8 @@ func Uint16AsPaddedBytes(i uint16, n int) []byte {
 }
 
 func AddPaddingToBytes(b []byte, n int) []byte {
-	if len(b)/8 >= n {
+	if len(b)/8 >= n || len(b) >= n {
+		// nothing to pad (a longer input used to make the slice below panic)
 		return b
 	}
 	tmp := make([]byte, n, n)
